@@ -20,8 +20,13 @@ def r1_solicitation_gate(run):
     fi = m.func(AR + "loads")
     cfg = cfg_of(fi, m)
     known = "self.in_response_to in self.outstanding_queries"
-    tests = {unparse(t.ast) for t in cfg.by_kind("test")}
-    run.require("self.asynchop" in tests, "loads: `if self.asynchop` vanished")
+    from .. import canon
+    tests = set()
+    for t in cfg.by_kind("test"):
+        for conj in canon._dnf(t.ast, True):
+            tests |= {canon.ctext(e) for e, _ in conj}
+    run.require("self.asynchop" in tests, "loads: the test of self.asynchop "
+                "vanished")
     key = fi.qual + "::unknown-irt+not-allowed=>reject"
     if known not in tests:
         run.violated("R1", key, "loads no longer tests `%s`" % known, fi.loc())
@@ -438,7 +443,9 @@ def r7_own_endpoints(run):
             list(atoms)[0].text == "self.config.endpoint"
         if ok:
             c = list(atoms)[0].ast
-            ok = [unparse(a) for a in c.args] == \
+            got = [arg_of(c, 0, "service"), arg_of(c, 1, "binding"),
+                   arg_of(c, 2, "context")]
+            ok = [unparse(a) if a is not None else None for a in got] == \
                 ["'assertion_consumer_service'", "binding", "'sp'"]
         run.check(ok, "R7", su.qual + "::return",
                   "config.endpoint('assertion_consumer_service', binding, 'sp')",
